@@ -5,6 +5,7 @@ package props
 import (
 	"fmt"
 	"math/rand/v2"
+	"slices"
 
 	"github.com/creachadair/mds/stree"
 	"verif/harness/fw"
@@ -25,10 +26,10 @@ func init() {
 				Flavours: []string{"plain", "cover"},
 				Blocks:   32,
 				Procs:    16,
-				Rule: "case = one tree shape (beta in {0,250,600,900,1000,...}, built by a C01-style history or bulk New) with: Cursor(k) for EVERY key and for absent keys around every key; full forward (Min, Next...) and backward (Max, Prev...) sweeps with HasNext/HasPrev before each move; subtree checks at every node (everything through Left smaller, through Right larger, Cursor.Inorder == subtree keys ascending, early stop, Min/Max land on subtree extremes, Up after Left/Right returns); " +
+				Rule: "case = one tree shape (beta in {0,250,600,900,1000,...}, built by a C01-style history or bulk New) with: Cursor(k) for EVERY key and for absent keys around every key; full forward (Min, Next...) and backward (Max, Prev...) sweeps with HasNext/HasPrev before each move; subtree checks at every node (everything through Left smaller, through Right larger, Cursor.Inorder == subtree keys ascending, early stop, the same cursor scanned again from inside its own scan (re-entrancy; cursors obtained by Cursor(k) and by moves from the root), Min/Max land on subtree extremes, Up after Left/Right returns); " +
 					"random walks (Next/Prev/Left/Right/Up/Min/Max/Clone, 200-2000 moves) of a population of up to 4 cursors with shadow positions, all cursors re-checked after every move; sparse-observation walks (only Valid/Key looked at after each move, the Has* predicates asked occasionally and not re-asked before the next move); cursors looked up, the tree cloned, the original modified, and the clone checked through every cursor operation; nil and invalidated cursors: every method a harmless no-op. " +
 					"distinct = hash of (shape as parent vector, walk seed); non-trivial = the shape has depth >= 4 and the walks included a Next/Prev that climbed >= 2 ancestors",
-				Required:     []string{"shapes", "next_climb_ge2", "prev_climb_ge2", "clone_moves", "invalid_cursor_probes", "absent_key_probes", "shapes_depth_ge10", "walk_moves", "empty_trees", "shapes_with_wide_comparator", "sparse_walk_moves", "clone_after_lookup_checks"},
+				Required:     []string{"shapes", "next_climb_ge2", "prev_climb_ge2", "clone_moves", "invalid_cursor_probes", "absent_key_probes", "shapes_depth_ge10", "walk_moves", "empty_trees", "shapes_with_wide_comparator", "sparse_walk_moves", "clone_after_lookup_checks", "reentrant_scans", "cursors_reached_by_moves", "bulk_new_with_repeated_keys"},
 				Assumptions:  []string{"set contents are taken from Tree.Inorder (property C01)", "the structure used as shadow model is itself read through the cursor API, and is accepted only if two independent readings agree and form a binary search tree over exactly the reference set"},
 				CoverPkgs:    []string{"github.com/creachadair/mds/stree"},
 				CoverAnchors: []string{"stree/cursor.go", "stree/stree.go:Cursor", "stree/stree.go:Root", "stree/node.go:pathTo"},
@@ -213,6 +214,19 @@ func (k *c03case) perKey() {
 	n := len(k.ref)
 	for i := 0; i < n && !k.failed; i++ {
 		c := k.cursorAt(i)
+		if i%3 == 1 {
+			// reach the same node by moves from the root instead (the cursor's
+			// internal path then has a different history and capacity)
+			c = k.t.Root()
+			for c.Valid() && c.Key().Key != k.ref[i].Key {
+				if k.ref[i].Key < c.Key().Key {
+					c.Left()
+				} else {
+					c.Right()
+				}
+			}
+			k.c.Add("cursors_reached_by_moves", 1)
+		}
 		if !k.checkAt(c, i, fmt.Sprintf("Cursor(%d)", k.ref[i].Key)) {
 			return
 		}
@@ -250,6 +264,39 @@ func (k *c03case) perKey() {
 			if bad || j != hi+1 {
 				k.fail("Cursor(%d).Inorder does not list exactly the subtree keys [%v..%v]", k.ref[i].Key, k.ref[lo], k.ref[hi])
 				return
+			}
+			if hi-lo <= 150 {
+				// re-entrant use: from inside the cursor's own scan, scan the very
+				// same cursor again (and read it); both scans must be complete
+				at := (i * 7) % (hi - lo + 1)
+				j, bad, innerBad := lo, false, false
+				c.Inorder(func(e Elem) bool {
+					if j > hi || e != k.ref[j] {
+						bad = true
+						return false
+					}
+					if j-lo == at || j-lo == at/2 {
+						jj := lo
+						c.Inorder(func(e2 Elem) bool {
+							if jj > hi || e2 != k.ref[jj] {
+								innerBad = true
+								return false
+							}
+							jj++
+							return true
+						})
+						if jj != hi+1 || !c.Valid() || c.Key() != k.ref[i] {
+							innerBad = true
+						}
+						k.c.Add("reentrant_scans", 1)
+					}
+					j++
+					return true
+				})
+				if bad || innerBad || j != hi+1 {
+					k.fail("Cursor(%d).Inorder run again from inside its own loop body: outer scan complete=%v, inner scan complete=%v (subtree keys [%v..%v])", k.ref[i].Key, !bad && j == hi+1, !innerBad, k.ref[lo], k.ref[hi])
+					return
+				}
 			}
 			stop := i % (hi - lo + 1)
 			calls := 0
@@ -668,7 +715,7 @@ func c03build(r *rand.Rand, beta, caseIdx int, c *fw.Ctx) (*stree.Tree[Elem], st
 	case 1:
 		n = caseIdx / 10 % 9 // includes the empty tree
 	}
-	mode := r.IntN(7)
+	mode := r.IntN(8)
 	desc := fmt.Sprintf("beta=%d n=%d mode=%d", beta, n, mode)
 	cmpElem := cmpElem
 	if r.IntN(3) == 0 {
@@ -683,6 +730,23 @@ func c03build(r *rand.Rand, beta, caseIdx int, c *fw.Ctx) (*stree.Tree[Elem], st
 			keys[i] = mk(p * 2)
 		}
 		return stree.New(beta, cmpElem, keys...), desc + " (bulk New)"
+	case 7: // bulk New with repeated keys, given in ascending, descending or random order
+		var keys []Elem
+		for i := 0; i < n; i++ {
+			keys = append(keys, mk(i*2))
+			for r.IntN(3) == 0 {
+				keys = append(keys, mk(i*2))
+			}
+		}
+		order := r.IntN(3)
+		switch order {
+		case 1:
+			slices.Reverse(keys)
+		case 2:
+			r.Shuffle(len(keys), func(a, b int) { keys[a], keys[b] = keys[b], keys[a] })
+		}
+		c.Add("bulk_new_with_repeated_keys", 1)
+		return stree.New(beta, cmpElem, keys...), desc + fmt.Sprintf(" (bulk New of %d keys with repeats, order %d)", len(keys), order)
 	case 1: // ascending inserts
 		t := stree.New(beta, cmpElem)
 		for i := 0; i < n; i++ {
